@@ -23,7 +23,7 @@ def _atom(e):
     if isinstance(e, ast.Compare) and len(e.ops) == 1:
         op = e.ops[0]
         l, r = ast.unparse(e.left), ast.unparse(e.comparators[0])
-        if type(op) in _POS:
+        if type(op) in _POS and not isinstance(op, ast.NotEq):
             return "%s %s %s" % (l, _POS[type(op)][1], r), False
         if isinstance(op, ast.Eq):
             a, b = sorted([l, r])
